@@ -86,7 +86,8 @@ PROPS = {
         "level": "exploration",
         "design_ref": "DESIGN.md section 5, C13",
         "rule": "complete enumeration of match kind (3) x start kind (3) x requested anchoring (2) x automaton kind "
-                "(auto + 3 explicit) x the 21 public search entry points of AhoCorasick plus two call histories "
+                "(auto + 3 explicit) x the `earliest` input option (2, for entry points taking an Input) x the 21 public "
+                "search entry points of AhoCorasick plus two call histories "
                 "(find_overlapping / try_find_overlapping on an OverlappingState that accepted warm-up calls have "
                 "already advanced), for 6 fixed pattern lists "
                 "(no patterns, with/without the empty pattern, suffix-closed) plus seeded random lists, x several "
@@ -98,7 +99,7 @@ PROPS = {
         "exhaustive": True,
         "exhaustive_note": "the configuration x API space is enumerated completely; pattern lists and haystacks are sampled",
         "stages": {"quick": NATIVE, "thorough": NATIVE},
-        "floors": {"quick": {"evaluations": 200_000, "cells_expect_reject": 100_000, "cells_expect_accept": 80_000},
+        "floors": {"quick": {"evaluations": 300_000, "cells_expect_reject": 150_000, "cells_expect_accept": 100_000},
                    "thorough": {"evaluations": 5_000_000}},
         "timeout": T_DEFAULT,
     },
@@ -276,7 +277,11 @@ PROPS.update({
                 "Required: no panic; the error is surfaced (iterator item / Err return) - the iterator may only end "
                 "without it if the reader reported end of stream; matches before the error are a prefix of matches*; "
                 "bytes accepted by the writer are a prefix of output*. (std's write_all retries Interrupted writes: "
-                "then Ok with complete output is required.) A case = one injected fault; every one is distinct.",
+                "then Ok with complete output is required.) The read fault is one-off and the find iterator is drained "
+                "further after it (a caller treating the fault as transient): all matches yielded before and after "
+                "the error must still be a prefix of matches*, and if the iteration then ends after the reader's end "
+                "of stream it must equal matches*; an iterator that only repeats the error is accepted. "
+                "A case = one injected fault; every one is distinct.",
         "assumptions": COMMON_ASSUMPTIONS[1:] + [
             "fault positions are enumerated exhaustively per (stream, schedule, capacity); streams and schedules are sampled",
             "the error kind reaching the caller is not required to equal the injected kind, only that an error is reported"],
@@ -285,7 +290,8 @@ PROPS.update({
         "stages": {"quick": NATIVE, "thorough": NATIVE},
         "floors": {"quick": {"evaluations": 1_500_000, "read_faults_injected_find": 500_000,
                              "read_faults_injected_replace": 500_000, "write_faults_injected": 400_000,
-                             "read_faults_surfaced_in_rolling_cases": 400_000},
+                             "read_faults_surfaced_in_rolling_cases": 400_000,
+                             "iterations_resumed_after_fault": 300_000},
                    "thorough": {"evaluations": 40_000_000}},
         "timeout": T_DEFAULT,
     },
@@ -345,6 +351,7 @@ PROPS.update({
         "stages": {"quick": NATIVE, "thorough": NATIVE},
         "floors": {"quick": {"evaluations": 1_000_000, "distinct_nontrivial": 200_000,
                              "cases_with_non_boundary_matches": 100_000, "cases_with_empty_matches": 15_000,
+                             "haystacks_of_1_kib_or_more": 5_000,
                              "closure_stopped_early": 40_000},
                    "thorough": {"evaluations": 40_000_000}},
         "timeout": T_DEFAULT,
@@ -439,8 +446,8 @@ PROPS.update({
                 "`valgrind --tool=callgrind --toggle-collect=*cost_probe_measured*`, giving the exact instruction count "
                 "of that search (independent of machine load). Haystacks have no candidate byte in their first half and "
                 "a false candidate every few bytes afterwards. Relations: cost(2n) <= 2.5*cost(n)+50k for n = 16K, 32K "
-                "(64K, 128K thorough); cost of a span behind a 256 KiB candidate-free prefix <= 1.5*cost of the "
-                "sub-slice + 100k.",
+                "(64K, 128K thorough); cost of a span behind an 8 MiB candidate-free prefix, and of a span followed by an "
+                "8 MiB candidate-free suffix, <= 1.5*cost of the sub-slice + 100k.",
         "assumptions": COMMON_ASSUMPTIONS[1:] + [
             "counters are incremented at the three next_state call sites of the generic search loops and in the "
             "failure loops of both NFAs (hook commit); prefilter scanning is not counted as automaton work",
@@ -448,7 +455,7 @@ PROPS.update({
             "the cost stage needs valgrind's callgrind tool (present in this image) and measures find_iter on the contiguous NFA only"],
         "stages": {"quick": NATIVE + [COST_STAGE_QUICK], "thorough": NATIVE + [COST_STAGE_THOROUGH]},
         "floors": {"quick": {"evaluations": 50_000, "distinct_nontrivial": 20_000, "transitions_observed": 50_000_000,
-                             "cost_measurements": 100, "cost_relations_checked": 60,
+                             "cost_measurements": 120, "cost_relations_checked": 80,
                              "failures_observed": 20_000_000, "calls_with_heavy_failure_traffic": 3000,
                              "stream_iterators_measured": 2000, "stream_rolls_observed": 5_000_000, "family_a^k_b": 150, "family_fibonacci": 150,
                              "family_nested_suffixes": 150},
@@ -526,7 +533,7 @@ PROPS.update({
     },
 })
 
-TSAN_ENV = {"TSAN_OPTIONS": "halt_on_error=0:second_deadlock_stack=1:report_signal_unsafe=0"}
+TSAN_ENV = {"TSAN_OPTIONS": "halt_on_error=0:second_deadlock_stack=1:report_signal_unsafe=0", "ACMON_LIGHT": "1"}
 
 PROPS.update({
     "C17": {
@@ -541,7 +548,11 @@ PROPS.update({
                 "clones made beforehand and drop them inside the thread. Every operation is logged at the client "
                 "boundary with call/return tickets from one global atomic counter and a hash of everything returned. "
                 "Offline checker: each concurrent result equals the result computed sequentially before the threads "
-                "started and again after they finished; Debug renderings (all states/transitions/match lists) are "
+                "started and again after they finished - and after 70 000 unrelated small searchers of every kind (six "
+                "same-shape pattern sets; 3 000 under TSan) have been built, searched, compared with the reference "
+                "model and dropped in between, with 60 process-wide long-lived witness searchers re-checked along the "
+                "way -, and when the same operations are re-run in reverse and "
+                "shuffled order and twice in a row; Debug renderings (all states/transitions/match lists) are "
                 "unchanged; 'overlapping_operation_pairs' counts pairs from different threads whose ticket intervals "
                 "overlapped. Observers: native ('threads'), write-protected searcher heap ('purity': world built from "
                 "an mmap arena that is mprotect'ed read-only during the whole workload; any store into searcher memory "
@@ -575,7 +586,8 @@ PROPS.update({
         },
         "floors": {"quick": {"evaluations": 200_000, "overlapping_operation_pairs": 100_000, "protected_windows": 8,
                              "rounds_threads": 8, "rounds_tsan": 2, "rounds_miri": 8,
-                             "concurrent_stream_find_iter": 10_000, "concurrent_overlapping_step": 10_000},
+                             "concurrent_stream_find_iter": 10_000, "concurrent_overlapping_step": 10_000,
+                             "unrelated_searchers_built": 500_000},
                    "thorough": {"evaluations": 5_000_000, "rounds_miri": 60}},
         "timeout": {"quick": 1500, "thorough": 8 * 3600},
     },
